@@ -452,7 +452,7 @@ class Calls:
                     if t.qual not in seen:
                         todo.append(t)
             if include_nested_defs:
-                for nf in f.nested.values():
+                for nf in f.nested_all:
                     if nf.qual not in seen:
                         todo.append(nf)
         return seen
